@@ -521,6 +521,8 @@ func entriesFor(stream string) []int {
 		return []int{EEval, ELoadRun, EParse, EParseFile, ERepl, EMacexpand, EApply}
 	case stream == "specials":
 		return []int{EEval}
+	case stream == "prattseq":
+		return []int{EEval, ERepl}
 	}
 	return []int{EEval, ELoadRun, EParse, EParseFile, ERepl, EMacexpand, EApply, EFollow}
 }
@@ -612,6 +614,7 @@ func workerMain(st Stream, from, to int, progressPath, resultPath string, budget
 	if only >= 0 {
 		tie = false
 	}
+	prattTie := only < 0 && (tie || st.Name() == "prattseq" || st.Name() == "typed" || st.Name() == "programs")
 	nTie := 0
 	seenPanic := map[string]int{}
 	for i := from; i < to; i++ {
@@ -627,6 +630,13 @@ func workerMain(st Stream, from, to int, progressPath, resultPath string, budget
 			shape, class := w.tieObserve(src)
 			if shape != "" && len(shape) < 4000 {
 				fmt.Fprintf(res, "C\t%d\t%s\t%s\n", i, shape, class)
+				nTie++
+			}
+		}
+		if prattTie && strings.ContainsAny(src, "{") || prattTie && st.Name() == "infix" {
+			setProgress(i, nEntries)
+			for _, sc := range w.prattObserve(src, st.Name() == "infix") {
+				fmt.Fprintf(res, "C\t%d\t%s\t%s\n", i, sc[0], sc[1])
 				nTie++
 			}
 		}
